@@ -48,3 +48,11 @@ package robust
 //@   assert@return #0 : decoded: len(b) > 0 && b[0] == 'p' ==> msg.Id.Reply == p.Id.Reply && msg.Session.Id == p.Session.Id && msg.Session.Reply == p.Session.Reply && msg.Type == p.Type && msg.Data == p.Data && msg.UnixNano == p.UnixNano && sameslice(msg.Servers, p.Servers) && msg.Currentmaster == p.CurrentMaster && msg.ClientMessageId == p.ClientMessageId && msg.Revision == p.Revision && msg.RemoteAddr == p.RemoteAddr
 //@   assert@return #0 : id: len(b) > 0 && b[0] == 'p' ==> msg.Id.Id == ite(p.Id.Id == 0, index, p.Id.Id)
 //@   ensures defaulted: result.Id.Id != 0 || index == 0
+
+// ---------------------------------------------------------------------------
+// C02: every replicated message belongs to exactly one log entry. idxOf names
+// the raft index of the entry that carries the message with a given id (ids
+// are the entry's index plus the per-network offset, or the legacy timestamp
+// ids of old networks: unique either way). Used as the key of the ghost sets
+// "entries absorbed by a server state" and "entries whose output is stored".
+//@ ghost idxOf(id uint64) uint64
